@@ -1,5 +1,5 @@
 """C04: the fixed application of SpyneMutate.tla, mutant-aware request encoders and the shape reporter."""
-import datetime, decimal, io, json, os
+import base64, datetime, decimal, io, json, os, uuid
 from urllib.parse import quote
 from . import tlc, pipeline_common as pc, enc as E
 from .core import use_repo
@@ -8,7 +8,8 @@ use_repo()
 XSI = E.XSI
 BASE = {'shape': {'s1': 1}, 'n': 5, 's': 'hello', 'd': '2020-02-29', 'col': 'red', 'xs': [1, 2],
         'ps': [{'name': 'ann', 'age': 30, 'born': '1990-01-02'}], 'p': {'name': 'bob', 'age': 40, 'born': '1980-03-04'},
-        'fl': 1.5, 'b': True, 'cs': [{'s1': 1, 'r': 2}], 'ss': [{'s1': 3}], 'aa': [['x', 'y'], ['z']], 'de': '12.50'}
+        'fl': 1.5, 'b': True, 'cs': [{'s1': 1, 'r': 2}], 'ss': [{'s1': 3}], 'aa': [['x', 'y'], ['z']], 'de': '12.50',
+        'u': '12345678-1234-1234-1234-123456789abc', 'ba': 'AAEC', 'tg': {'tag': 'T1', 'v': 7}}
 HDR = {'token': 'tok-1', 'n': 3, 'd': '2021-05-06'}
 HDR_T = {'k': 'obj', 'ns': 'tns', 'name': 'Session'}
 TREES = {'emptymap': {}, 'emptylist': [], 'map1': {'k': 1}, 'list1': [1], 'str': 'str', 'strnum': '5', 'zero': 0, 'one': 1, 'false': False,
@@ -31,9 +32,9 @@ def export(ctx):
 
 def build(table, inp, outp):
     """the zoo application from the exported table -> (wsgi, seen, classes)"""
-    from spyne import Application, Service, srpc, rpc, ComplexModel, Integer, Unicode, Date, Boolean, Double, Array, Enum, Decimal
+    from spyne import Application, Service, srpc, rpc, ComplexModel, Integer, Unicode, Date, Boolean, Double, Array, Enum, Decimal, Uuid, ByteArray, XmlAttribute
     from spyne.server.wsgi import WsgiApplication
-    prim = {'Integer': Integer, 'Unicode': Unicode, 'Date': Date, 'Boolean': Boolean, 'Double': Double, 'Decimal': Decimal}
+    prim = {'Integer': Integer, 'Unicode': Unicode, 'Date': Date, 'Boolean': Boolean, 'Double': Double, 'Decimal': Decimal, 'Uuid': Uuid, 'ByteArray': ByteArray}
     Color = Enum('red', 'green', type_name='Color')
     classes = {}
 
@@ -41,9 +42,10 @@ def build(table, inp, outp):
         if t['k'] == 'prim': return prim[t['p']]
         if t['k'] == 'enum': return Color
         if t['k'] == 'arr': return Array(ty(t['of']))
+        if t['k'] == 'attr': return XmlAttribute(ty(t['of']))
         return classes[(t['ns'], t['name'])]
     fields = table['fields']
-    order = [('tns', 'Shape'), ('tns', 'Circle'), ('tns', 'Square'), ('tns', 'Person'), ('urn:app', 'Circle'), ('tns', 'Session')]
+    order = [('tns', 'Shape'), ('tns', 'Circle'), ('tns', 'Square'), ('tns', 'Person'), ('urn:app', 'Circle'), ('tns', 'Session'), ('tns', 'Tagged')]
     for ns, name in order:
         base = ComplexModel
         own = fields[(ns, name)]
@@ -78,6 +80,10 @@ def shape(x, Color):
     if isinstance(x, float): return ['leaf', 'float']
     if isinstance(x, str): return ['leaf', 'str']
     if isinstance(x, decimal.Decimal): return ['leaf', 'decimal']
+    if isinstance(x, uuid.UUID): return ['leaf', 'uuid']
+    if isinstance(x, (bytes, bytearray)): return ['leaf', 'bytes']
+    if isinstance(x, (list, tuple)) and len(x) > 0 and all(isinstance(y, (bytes, bytearray, memoryview)) for y in x):
+        return ['leaf', 'bytes']          # binary data is delivered as a sequence of chunks
     if isinstance(x, datetime.datetime): return ['leaf', 'datetime']
     if isinstance(x, datetime.date): return ['leaf', 'date']
     if isinstance(x, (list, tuple)) and not hasattr(type(x), '_type_info'):
@@ -126,7 +132,9 @@ def xml_request(table, m, header=False):
             it = t['of']
             iname = item_name(it)
             return '<%s%s>%s</%s>' % (q, attrs, ''.join(elem(iname, it, x, path + [i]) for i, x in enumerate(v)), q)
-        inner = ''.join(elem(n, ft, v[n], path + [n]) for n, ft in table['fields'][(t['ns'], t['name'])] if n in v)
+        fl = table['fields'][(t['ns'], t['name'])]
+        attrs += ''.join(' %s="%s"' % (n, E.xml_escape(E.lex(v[n]))) for n, ft in fl if n in v and ft['k'] == 'attr')
+        inner = ''.join(elem(n, ft, v[n], path + [n]) for n, ft in fl if n in v and ft['k'] != 'attr')
         return '<%s%s>%s</%s>' % (q, attrs, inner, q)
     body = ''.join(elem(n, t, BASE[n], [n]) for n, t in table['args'])
     doc = '<tns:f xmlns:tns="tns" xmlns:xsi="%s">%s</tns:f>' % (XSI, body)
@@ -141,12 +149,14 @@ def xml_prime():
     return ('<tns:g xmlns:tns="tns" xmlns:p="urn:app" xmlns:xsi="%s"><tns:c xsi:type="p:Circle"><p:x>y</p:x></tns:c></tns:g>' % XSI)
 
 
-def dict_request(table, m, wrappers=False):
+def dict_request(table, m, wrappers=False, binary=False):
     def val(t, v, path):
         if hit(m, path) and m['op'] == 'replace':
             return TREES[m['arg'][0]]
         k = t['k']
-        if k in ('prim', 'enum'):
+        if k == 'prim' and t['p'] == 'ByteArray' and binary:
+            return base64.b64decode(v)          # (MessagePack carries binary data as bin)
+        if k in ('prim', 'enum', 'attr'):
             return v
         if k == 'arr':
             return [val(t['of'], x, path + [i]) for i, x in enumerate(v)]
@@ -165,7 +175,7 @@ def flat_request(table, m):
         k = t['k']
         here = hit(m, path)
         var = m['arg'][0] if here else None
-        if k in ('prim', 'enum'):
+        if k in ('prim', 'enum', 'attr'):
             kk = key
             if var == 'dot_x': kk = key + '.x'
             elif var == 'index0': kk = key + '[0]'
